@@ -4,6 +4,7 @@
    (hypotheses are stated where they are needed); pwf is the executable family of piecewise
    cdfs (ramps, jumps, flat stretches) the correspondence check runs against the Go code. *)
 From MM Require Import Base.Num Model.Choose Model.Binom Model.Hyperg Model.InvCDF Proofs.InvCDF Check.C07 Proofs.InvCDFCheck.
+From MM Require Import Spec.C06Prob Proofs.CheckC07.
 Local Open Scope Q_scope.
 
 (* ----- bracket expansion by doubling from 0 (dist.go:146-167), WITH its float64 rounding -----
@@ -292,3 +293,103 @@ Example C07_rand_example :
   rand_model (fun y => option_map Qred (pw_quantile C07_ex y)) [0; 0; 3 # 4; 1 # 8] = Some (Some (5 # 2), 3%nat) /\
   rand_model (fun y : Q => y) [0; 0] = None.
 Proof. vm_compute. repeat split; reflexivity. Qed.
+
+(* ----- (group hK) the comparator is sound on the built-in discrete distributions and on the relational op -----
+   ops 1 / 2 (InvCDF of BinomialDist / HypergeometicDist): an accepted line parses completely, the parameters are
+   in the property's range, every level satisfies disc_level_spec (Proofs/CheckC07.v) for the EXACT distribution
+   function F k = sum of the probabilities of lo..k written with Spec/C06Prob.v only (NaN outside [0,1], the
+   end-point rule at 0 and 1, and for 0 < y < 1: floor(obs) = ko is a support point, obs - ko <= 1e-9 ko,
+   F ko >= y - 1e-9 and F k' < y + 1e-9 for every support point k' < ko), the results are non-decreasing in y,
+   and with verdict code 0 (not borderline) ko IS the least support point with F >= y (disc_level_exact) *)
+Theorem C07_check_op1_sound : forall rest c tag pos diag,
+  check_C07 (7 :: 1 :: rest)%Z = verdict c tag pos diag -> (c = 0 \/ c = 1)%Z ->
+  exists n p items,
+    (do n <- pZ; do p <- pQ; do items <- plist p_item; pend (n, p, items)) rest = Some ((n, p, items), []) /\
+    (0 <= n <= 200)%Z /\ 0 <= p <= 1 /\
+    Forall (disc_level_spec (fun k => cdf_sum (bin_prob n p) 0 k) 0 n) items /\
+    levels_ordered items /\
+    (c = 0%Z -> Forall (disc_level_exact (fun k => cdf_sum (bin_prob n p) 0 k) 0 n) items).
+Proof. exact check_C07_op1_sound. Qed.
+Print Assumptions C07_check_op1_sound.
+
+Theorem C07_check_op2_sound : forall rest c tag pos diag,
+  check_C07 (7 :: 2 :: rest)%Z = verdict c tag pos diag -> (c = 0 \/ c = 1)%Z ->
+  exists N K n items,
+    (do N <- pZ; do K <- pZ; do n <- pZ; do items <- plist p_item; pend (N, K, n, items)) rest = Some ((N, K, n, items), []) /\
+    (2 <= N <= 200)%Z /\ (0 <= K <= N)%Z /\ (0 <= n <= N)%Z /\
+    let lo := Z.max 0 (n + K - N) in let hi := Z.min n K in
+    Forall (disc_level_spec (fun k => cdf_sum (hg_prob N K n) lo k) lo hi) items /\
+    levels_ordered items /\
+    (c = 0%Z -> Forall (disc_level_exact (fun k => cdf_sum (hg_prob N K n) lo k) lo hi) items).
+Proof. exact check_C07_op2_sound. Qed.
+Print Assumptions C07_check_op2_sound.
+
+(* op 6 (distributions without an exact model here; F := the implementation's own CDF as reported by the harness,
+   see the header of section B of Proofs/CheckC07.v for the trusted observations): an accepted line has header
+   status 0, parses completely, every level satisfies rel_level_spec (the bits of stats.InvCDF(d)(y) are the bits
+   of the reference; CDF(x) >= y and CDF(x - delta) < y + slack with delta <= 1.001e-9 |x| + 2e-15 for a finite x;
+   -Inf / +Inf justified by the CDF at the last finite probes; the end-point rule at 0 and 1; NaN outside [0,1]),
+   the results are non-decreasing in y (exactly on the generic path, to 1e-9 relative for an own method), and every
+   draw of stats.Rand(d) has the bits of the reference generator's draw *)
+Theorem C07_check_op6_sound : forall rest0 c tag pos diag,
+  check_C07 (7 :: 6 :: rest0)%Z = verdict c tag pos diag -> (c = 0 \/ c = 1)%Z ->
+  exists h rest items pairs,
+    p_relhdr rest0 = Some (h, rest) /\ rh_hst h = 0%Z /\
+    (do items <- plist p_rel; do pairs <- plist p_pair; pend (h, items, pairs)) rest = Some ((h, items, pairs), []) /\
+    Forall (rel_level_spec h) items /\
+    levels_ordered_tol (rel_mono_tol (rh_own h)) (rel_plain items) /\
+    Forall (fun gm : Z * Z => fst gm = snd gm) pairs.
+Proof. exact check_C07_op6_sound. Qed.
+Print Assumptions C07_check_op6_sound.
+
+(* non-vacuity: lines produced by the harness on /repo.  BinomialDist{5, 0.3} at y = 0, 0.5, 1, 2 (ok; small table);
+   BinomialDist{30, 0.25} at 0.5, 0.9 (ok; shared table); BinomialDist{5, 0.3} with the level 0.16807 = 0.7^5 = F(0)
+   up to rounding added (accepted as BORDERLINE: the window form only) *)
+Example C07_check_op1_example :
+  check_C07 [7; 1; 5; 4599075939470750515; 4; 0; 0; 18442240474082181120; 4602678819172646912; 0; 4607182418800017408; 4607182418800017408; 0; 4617315517961601024; 4611686018427387904; 0; 9221120237041090561]%Z = verdict 0 8783 (-1) [] /\
+  check_C07 [7; 1; 30; 4598175219545276416; 2; 4602678819172646912; 0; 4619567317775286272; 4606281698874543309; 0; 4622382067542392832]%Z = verdict 0 617 (-1) [] /\
+  check_C07 [7; 1; 5; 4599075939470750515; 5; 0; 0; 18442240474082181120; 4602678819172646912; 0; 4607182418800017408; 4607182418800017408; 0; 4617315517961601024; 4595223380205512698; 0; 4607182418800017408; 4611686018427387904; 0; 9221120237041090561]%Z = verdict 1 74335 (-1) [].
+Proof. vm_compute. repeat split; reflexivity. Qed.
+(* HypergeometicDist{20, 7, 5} at y = 0.5, 0.25, 1 (shared table) *)
+Example C07_check_op2_example :
+  check_C07 [7; 2; 20; 7; 5; 3; 4602678819172646912; 0; 4611686018427387904; 4598175219545276416; 0; 4607182418800017408; 4607182418800017408; 0; 4617315517961601024]%Z = verdict 0 587 (-1) [].
+Proof. vm_compute. reflexivity. Qed.
+(* TDist{3} at y = 0.5, 0.975, 0, 1 and three Rand draws *)
+Example C07_check_op6_example :
+  check_C07 [7; 6; 0; 4613937818241073152; 0; 0; 13839561654909534208; 4616189618054758400; 4579226509592286528; 4607056279927966891; 0; 4607182418800017408; 4; 4602678819172646912; 0; 13593486545382453988; 13606707285761285092; 4602678819172646912; 4602678819172646904; 4381604825578692181; 4602678819172646915; 0; 13593486545382453988; 4606957238818648883; 0; 4614348650797318560; 4614348650790152326; 4606957238818648883; 4606957238818098685; 4614348650804484794; 4606957238819199079; 0; 4614348650797318560; 0; 0; 18442240474082181120; 9221120237041090561; 9221120237041090561; 9221120237041090561; 9221120237041090561; 9221120237041090561; 0; 18442240474082181120; 4607182418800017408; 0; 9218868437227405312; 9221120237041090561; 9221120237041090561; 9221120237041090561; 9221120237041090561; 9221120237041090561; 0; 9218868437227405312; 3; 4598896475860437849; 4598896475860437849; 4612058218790167034; 4612058218790167034; 4602125126516389823; 4602125126516389823]%Z = verdict 0 272411 (-1) [].
+Proof. vm_compute. reflexivity. Qed.
+
+(* Rand with a scripted source (ops 4 and 7): stats.Rand(d)(r) returned, consumed exactly the leading zeros of the
+   source plus one value, the level it used is that first non-zero Float64() = v / 2^63 (rand_reading), the draw has
+   the bits of InvCDF(d)(y), and that level satisfies the level specification of the distribution: level_spec of the
+   piecewise cdf (op 4: the draw is within the tolerance of THE LEAST x with cdf x >= y) / rel_level_spec (op 7) *)
+Theorem C07_check_op4_sound : forall rest c tag pos diag,
+  check_C07 (7 :: 4 :: rest)%Z = verdict c tag pos diag -> (c = 0 \/ c = 1)%Z ->
+  exists pw bl bh src st consumed y draw ist inv,
+    (do pw <- plist p_knot; do bl <- pQ; do bh <- pQ; do src <- plist pZ;
+     do st <- pZ; do consumed <- pZ; do y <- pX; do draw <- pZ; do ist <- pZ; do inv <- pZ;
+     pend (pw, bl, bh, src, (st, consumed, y), (draw, ist, inv))) rest
+      = Some ((pw, bl, bh, src, (st, consumed, y), (draw, ist, inv)), []) /\
+    pw_wf pw /\ st = 0%Z /\ ist = 0%Z /\ draw = inv /\
+    exists yq, xr_is yq y /\ rand_reading src consumed yq /\ level_spec pw bl bh (XFin yq, ist, decode_bits inv).
+Proof. exact check_C07_op4_sound. Qed.
+Print Assumptions C07_check_op4_sound.
+
+Theorem C07_check_op7_sound : forall rest0 c tag pos diag,
+  check_C07 (7 :: 7 :: rest0)%Z = verdict c tag pos diag -> (c = 0 \/ c = 1)%Z ->
+  exists h rest src st consumed y draw it,
+    p_relhdr rest0 = Some (h, rest) /\ rh_hst h = 0%Z /\
+    (do src <- plist pZ; do st <- pZ; do consumed <- pZ; do y <- pX; do draw <- pZ; do it <- p_rel;
+     pend (h, src, (st, consumed, y), draw, it)) rest = Some ((h, src, (st, consumed, y), draw, it), []) /\
+    Z.land (rh_own h) 2 = 0%Z /\
+    st = 0%Z /\ ri_st it = 0%Z /\ draw = ri_xb it /\
+    exists yq, xr_is yq y /\ xr_is yq (ri_y it) /\ rand_reading src consumed yq /\ rel_level_spec h it.
+Proof. exact check_C07_op7_sound. Qed.
+Print Assumptions C07_check_op7_sound.
+
+(* uniform-like ramp on [0, 2] (0.75 at 2-, jump to 1), source 0, 1589621259045895168: one zero skipped;
+   TDist{3}, source 0, 0, 2^62 (y = 1/2 after two zeros) *)
+Example C07_check_op4_op7_example :
+  check_C07 [7; 4; 2; 0; 0; 0; 4611686018427387904; 4604930618986332160; 4607182418800017408; 13828865605794529280; 4609997168567123968; 2; 0; 1589621259045895168; 0; 2; 4595377478333683452; 4601950897308769957; 0; 4601950897308769957]%Z = verdict 0 6409 (-1) [] /\
+  check_C07 [7; 7; 0; 4613937818241073152; 0; 0; 13839561654909534208; 4616189618054758400; 4579226509592286528; 4607056279927966891; 0; 4607182418800017408; 3; 0; 0; 4611686018427387904; 0; 3; 4602678819172646912; 13593486545382453988; 4602678819172646912; 0; 13593486545382453988; 13606707285761285092; 4602678819172646912; 4602678819172646904; 4381604825578692181; 4602678819172646915; 0; 13593486545382453988]%Z = verdict 0 268305 (-1) [].
+Proof. vm_compute. split; reflexivity. Qed.
